@@ -791,6 +791,15 @@ pub fn c15(a: &Analysis, scn: &Scenario, o: &RunOutcome) -> Vec<Violation> {
             out.push(v("C15", "direct_recv_never_returns", &site_of(&a.recs[i]), st.text));
         }
     }
+    if scn.family.starts_with("futpark") && out.is_empty() {
+        // quota families: every task can finish; one that stays parked never delivers /
+        // accepts what the plain handle would under the same capacity rule
+        for mut x in c14(a, o) {
+            x.class = format!("{}_{}", x.prop, x.class);
+            x.prop = "C15";
+            out.push(x);
+        }
+    }
     if scn.seq.is_none() {
         // a Stream yields None only at the end of the stream and forever after
         for mut x in c07(a, scn) {
